@@ -69,15 +69,7 @@ Proof. destruct r; cbn [kebab_rule apply_rule]; intros Hk H; try discriminate; a
 (* the effective rule of a field / parameter *)
 Definition eff_rule (rename_all : option rule) (dflt : str) : rule :=
   match rename_all with Some r => r | None => default_rule dflt end.
-(* the recorded class: the serialized name is not an identifier name (nor a number) *)
-Definition kf_bare_key (name : str) (rename : option str) (rename_all : option rule) (dflt : str) : bool :=
-  negb (key_text_ok (serialized name rename rename_all dflt)).
-
-(* a key hole is good exactly outside the class (the templates never quote) *)
-Lemma key_hole_iff name rename rename_all dflt :
-  hole_ok HKey (serialized name rename rename_all dflt) = negb (kf_bare_key name rename rename_all dflt).
-Proof. unfold kf_bare_key. rewrite negb_involutive. reflexivity. Qed.
-
+Definition holes_ok (cs : list chunk) : bool := forallb (fun h => hole_ok (fst h) (snd h)) (holes cs).
 (* without an explicit rename and with a non-kebab convention, identifiers stay identifiers *)
 Lemma key_hole_no_rename name rename_all dflt :
   plain_ident name = true -> kebab_rule (eff_rule rename_all dflt) = false ->
@@ -86,16 +78,12 @@ Proof. intros Hn Hk. cbn [hole_ok]. unfold key_text_ok, serialized.
   assert (plain_ident (apply_rule (eff_rule rename_all dflt) name) = true) as H by (apply apply_rule_plain; assumption).
   unfold eff_rule in H. destruct rename_all; rewrite (plain_is_identifier _ H); reflexivity. Qed.
 
-(* an explicit rename is emitted verbatim: good iff it is an identifier name (or a number) *)
-Lemma key_hole_rename name v rename_all dflt :
-  hole_ok HKey (serialized name (Some v) rename_all dflt) = key_text_ok v.
-Proof. reflexivity. Qed.
-
-Lemma key_hole_refuted :
-  hole_ok HKey (serialized (L "full_name") (Some (scanned (L "full-name"))) None (L "snake_case")) = false /\
-  hole_ok HKey (serialized (L "first_name") None (Some RKebab) (L "snake_case")) = false /\
-  hole_ok HKey (serialized (L "r#type") None None (L "camelCase")) = false.
-Proof. vm_compute. repeat split. Qed.
+Lemma key_bare_no_rename name rename_all dflt :
+  plain_ident name = true -> kebab_rule (eff_rule rename_all dflt) = false ->
+  key_chunk (serialized name None rename_all dflt) = Hole HKey (serialized name None rename_all dflt).
+Proof. intros Hn Hk. unfold key_chunk, serialized.
+  assert (plain_ident (apply_rule (eff_rule rename_all dflt) name) = true) as H by (apply apply_rule_plain; assumption).
+  unfold eff_rule in H. destruct rename_all; rewrite (plain_is_identifier _ H); reflexivity. Qed.
 
 (* ---------------------------------------------------------------- function-name holes *)
 Definition kf_reserved_fn (name : str) : bool :=
@@ -117,9 +105,12 @@ Proof. intros Hn Hs Hr He Ha. cbn [hole_ok]. unfold is_binding_name. rewrite Hr,
   rewrite (plain_is_identifier _ H). reflexivity. Qed.
 
 Lemma fn_hole_refuted :
-  hole_ok HFn (camel2 (L "delete")) = false /\ hole_ok HFn (camel2 (L "r#match")) = false /\
+  hole_ok HFn (camel2 (L "delete")) = false /\ hole_ok HFn (camel2 (unraw (L "r#in"))) = false /\
   hole_ok HFn (camel2 (L "_2fa")) = false.
 Proof. vm_compute. repeat split. Qed.
+(* raw identifiers are read without their prefix since the repair of C01-raw-ident *)
+Lemma fn_hole_raw_witness : camel2 (unraw (L "r#match")) = L "match" /\ hole_ok HFn (camel2 (unraw (L "r#match"))) = true.
+Proof. vm_compute. split; reflexivity. Qed.
 
 (* listener names (repaired: every character that is not ASCII alphanumeric becomes an underscore before
    PascalCase): legal binding names for EVERY event name *)
@@ -196,20 +187,46 @@ Lemma str_hole_message m : hole_ok (HStr DQ) (escape_js m) = true.
 Proof. cbn [hole_ok]. unfold escape_js. induction m as [|c m IH]; [reflexivity|].
   cbn [flat_map]. rewrite str_body_esc1. exact IH. Qed.
 
-(* enum literals are emitted without escaping: the class is a body that is not well formed *)
-Lemma str_hole_refuted :
-  hole_ok (HStr DQ) (scanned (L "a""b")) = false /\ bad_class (HStr DQ) (scanned (L "a""b")) = Some "C01-literal-backslash"%string.
+(* enum literals go through the same escaping since the repair of C01-literal-backslash: the old witness
+   (variant rename with a double quote, scanned as the letter a followed by a backslash) now gives a well-formed literal *)
+Lemma str_hole_enum_witness :
+  escape_js (scanned (L "a""b")) = L "a\\" /\ hole_ok (HStr DQ) (escape_js (scanned (L "a""b"))) = true.
 Proof. vm_compute. split; reflexivity. Qed.
+
+(* property keys (repaired: ts_key filter): for EVERY byte string the printed key is an identifier name or a
+   well-formed double-quoted literal; likewise the member access *)
+Lemma key_chunk_ok k : holes_ok [key_chunk k] = true.
+Proof. unfold holes_ok, key_chunk. destruct (is_ts_identifier k) eqn:E; cbn [holes flat_map app forallb fst snd].
+  - cbn [hole_ok]. unfold key_text_ok. rewrite E. reflexivity.
+  - rewrite str_hole_message. reflexivity. Qed.
+Lemma member_access_ok k : holes_ok (member_access k) = true.
+Proof. unfold holes_ok, member_access. destruct (is_ts_identifier k) eqn:E; cbn [holes flat_map app forallb fst snd F].
+  - cbn [hole_ok]. unfold key_text_ok. rewrite E. reflexivity.
+  - rewrite str_hole_message. reflexivity. Qed.
+Lemma key_chunk_witnesses :
+  key_chunk (serialized (L "full_name") (Some (scanned (L "full-name"))) None (L "snake_case")) = Hole (HStr DQ) (L "full-name") /\
+  key_chunk (serialized (L "first_name") None (Some RKebab) (L "snake_case")) = Hole (HStr DQ) (L "first-name") /\
+  key_chunk (serialized (unraw (L "r#type")) None None (L "camelCase")) = Hole HKey (L "type") /\
+  member_access (L "on-event") = [F "["; Hole (HStr DQ) (L "on-event"); F "]"].
+Proof. vm_compute. repeat split. Qed.
 
 (* ---------------------------------------------------------------- type holes: witnesses of the recorded classes *)
 Definition g0 : c_cfg := {| g_zod := false; g_param_case := L "camelCase"; g_field_case := L "snake_case"; g_mappings := [] |}.
 Lemma type_hole_refuted :
-  let r1 := QPath [] (L "Result") true [QPath [] (L "HashMap") true [T0 "String"; T0 "User"]; T0 "String"] in
   let r2 := QPath [] (L "Result") true [QPath [L "crate"; L "models"] (L "User") false []; T0 "String"] in
-  let c1 := {| cc_name := L "f"; cc_serde := []; cc_params := []; cc_ret := Some r1 |} in
   let c2 := {| cc_name := L "f"; cc_serde := []; cc_params := []; cc_ret := Some r2 |} in
-  ret_text g0 c1 = L "types.HashMap<String" /\ hole_ok HType (ret_text g0 c1) = false /\
   ret_text g0 c2 = L "types.crate::models::User" /\ hole_ok HType (ret_text g0 c2) = false.
+Proof. vm_compute. repeat split. Qed.
+(* repaired (top-level comma splitting, recursive array prefix): the old witnesses of C01-half-generic and
+   C01-prefix-tuple now give well-formed type text *)
+Lemma type_hole_witnesses :
+  let r1 := QPath [] (L "Result") true [QPath [] (L "HashMap") true [T0 "String"; T0 "User"]; T0 "String"] in
+  let r3 := QPath [] (L "Vec") true [QTuple [T0 "String"; T0 "i32"]] in
+  let c1 := {| cc_name := L "f"; cc_serde := []; cc_params := []; cc_ret := Some r1 |} in
+  let c3 := {| cc_name := L "f"; cc_serde := []; cc_params := []; cc_ret := Some r3 |} in
+  ret_text g0 c1 = L "Record<string, User>" /\ hole_ok HType (ret_text g0 c1) = true /\
+  ret_text g0 c3 = L "[string, number][]" /\ hole_ok HType (ret_text g0 c3) = true /\
+  hole_ok HZ (field_schema g0 {| cf_name := L "pair"; cf_ty := QTuple [T2 "HashMap" (T0 "String") (T0 "i32"); T0 "bool"]; cf_serde := []; cf_val := None |}) = true.
 Proof. vm_compute. repeat split. Qed.
 Lemma type_hole_example :
   hole_ok HType (ts_text g0 (T2 "HashMap" (T0 "String") (T1 "Vec" (T1 "Option" (T0 "User"))))) = true /\
